@@ -47,7 +47,7 @@ theorem escape_bad {rest : Bytes} {p0 : Nat} {u : Bool} {i : Nat} {c : UInt8} {k
 
 theorem quotedStep_fail {rest : Bytes} {p0 : Nat} {q : Bytes} {raw uni isId np : Bool}
     {i : Nat} {content : Bytes} {he : Bool} {e : LexErr}
-    (h : quotedStep rest p0 q raw uni isId np i content he = .fail e) (hi : i ≤ rest.length) :
+    (h : quotedStep rest p0 p0 q raw uni isId np i content he = .fail e) (hi : i ≤ rest.length) :
     ErrOK rest p0 e ∧ np = false := by
   unfold quotedStep at h
   split at h
@@ -98,7 +98,7 @@ theorem quotedStep_fail {rest : Bytes} {p0 : Nat} {q : Bytes} {raw uni isId np :
 
 theorem quotedLoop_err {rest : Bytes} {p0 : Nat} {q : Bytes} {raw uni isId np : Bool}
     {fuel i : Nat} {content : Bytes} {he : Bool} {e : LexErr}
-    (h : quotedLoop rest p0 q raw uni isId np fuel i content he = .err e) (hi : i ≤ rest.length) :
+    (h : quotedLoop rest p0 p0 q raw uni isId np fuel i content he = .err e) (hi : i ≤ rest.length) :
     ErrOK rest p0 e ∧ np = false := by
   induction fuel generalizing i content he with
   | zero => simp [quotedLoop] at h
